@@ -5,6 +5,7 @@ witness -> real objects (real classes of the tree under check) -> real call -> a
 pre- and post-state into concrete heaps -> the failed clause evaluated by the same spec text."""
 import importlib
 import json
+import os
 import sys
 import z3
 from . import sym
@@ -15,6 +16,8 @@ from .contract import SpecCtx
 NODE_FIELDS = ['_priority', '_delete', '_allow_new', '_safe', '_implicit_delete', '_implicit_allow_new', '_implicit_safe',
                '_default_safe', '_source_file', '_idx', '_func']
 MAX_ITEMS = 6
+_DEFS = []
+_LOADED_ROOT = None
 MAX_DEPTH = 4
 
 
@@ -147,11 +150,16 @@ def make_witness(eng, contract, interp_args, pre_heap, model, slots=()):
 # ----------------------------------------------------------------------------- witness -> real objects
 class Builder_:
     def __init__(self, repo_root):
-        if repo_root not in sys.path:
+        global _LOADED_ROOT
+        if _LOADED_ROOT != repo_root:
+            if repo_root in sys.path:
+                sys.path.remove(repo_root)
             sys.path.insert(0, repo_root)
-        for m in [k for k in sys.modules if k == 'awesomeyaml' or k.startswith('awesomeyaml.')]:
-            del sys.modules[m]
+            for m in [k for k in sys.modules if k == 'awesomeyaml' or k.startswith('awesomeyaml.')]:
+                del sys.modules[m]
+            _LOADED_ROOT = repo_root
         self.ay = importlib.import_module('awesomeyaml')
+        assert os.path.abspath(self.ay.__file__).startswith(os.path.abspath(repo_root)), (self.ay.__file__, repo_root)
         self.nodes = importlib.import_module('awesomeyaml.nodes.node')
         self.real = {}
 
@@ -475,6 +483,9 @@ def run_witness(eng, contract, clause_name, witness, repo_root, kind='post'):
         elif 'path' in a:
             cargs[p.name] = PathV(_seq([ab2.tv(x, post, 0) for x in args[p.name]]))
     sc_pre = SpecCtx(eng, cargs, pre, pre)
+    defs = eng.ghost_defs(b.real, ids) if getattr(eng, 'ghost_defs', None) else []
+    global _DEFS
+    _DEFS = defs
     if contract.requires is not None:
         from .interp_call import _named
         for nm, g in _named(contract.requires(sc_pre), 'pre'):
@@ -489,11 +500,21 @@ def run_witness(eng, contract, clause_name, witness, repo_root, kind='post'):
             if allowed:
                 return {'verdict': 'holds', 'detail': f'real call {outcome} (allowed by the contract)'}
             return {'verdict': 'violates', 'detail': f'real call {outcome}; contract allows no such exception', 'outcome': outcome}
+        from .interp_call import _named
+        found = False
+        for rs in contract.raises:
+            if rs.exact and rs.when is not None and (clause_name == '*' or rs.name in clause_name):
+                if _holds(rs.when(sc)):
+                    return {'verdict': 'violates', 'detail': f'real call {outcome} although the condition of {rs.name} holds', 'outcome': outcome, 'clause': rs.name}
         for nm, fn_ in contract.ensures:
-            if nm == clause_name or clause_name.endswith(nm):
-                g = fn_(sc)
-                ok = _holds(g)
-                return {'verdict': 'holds' if ok else 'violates', 'detail': f'real call {outcome}; clause {nm} evaluates to {ok}', 'outcome': outcome}
+            for nm2, g in _named(fn_(sc), nm):
+                if clause_name == '*' or nm2 == clause_name or clause_name.endswith(nm2):
+                    found = True
+                    ok = _holds(g)
+                    if not ok:
+                        return {'verdict': 'violates', 'detail': f'real call {outcome}; clause {nm2} evaluates to False', 'outcome': outcome, 'clause': nm2}
+        if found or clause_name == '*':
+            return {'verdict': 'holds', 'detail': f'real call {outcome}; clause {clause_name} evaluates to True', 'outcome': outcome}
         return {'verdict': 'error', 'detail': f'clause {clause_name} not found'}
     if kind == 'raise':
         if exc is None:
@@ -538,6 +559,8 @@ def _holds(g):
         return all(_holds(x[1] if isinstance(x, tuple) else x) for x in g)
     s = z3.Solver()
     s.set('timeout', 20000)
+    for d in _DEFS:
+        s.add(d)
     s.add(z3.Not(g))
     r = s.check()
     if r == z3.unsat:
@@ -553,3 +576,125 @@ def _short(x):
     except Exception:
         s = f'<{type(x).__name__}>'
     return s[:120]
+
+
+# ----------------------------------------------------------------------------- witness search (bounded stand-in / refutation aid)
+import random
+
+LEAF_CLASSES = ['ConfigScalar[int]', 'ConfigScalar[str]', 'ConfigScalar[bool]', 'ConfigScalar[NoneType]', 'RequiredNode', 'XRefNode', 'EvalNode', 'ImportNode', 'ClearNode']
+FLAG3 = [None, True, False]
+
+
+class WitnessGen:
+    """random small inputs for a contract: trees of height <= 2 and width <= 2, flags from {None, True, False},
+    priorities from {None, -1, 0, 1}, keys from {'a', 'b', 0, 1}"""
+
+    def __init__(self, eng, contract, rng):
+        self.eng, self.c, self.rng = eng, contract, rng
+        self.objects = {}
+        self.next = 0
+
+    def ref(self):
+        self.next += 1
+        return self.next
+
+    def flags(self):
+        r = self.rng
+        few = r.random() < 0.5      # most nodes of real configs carry few flags
+        def f():
+            return r.choice(FLAG3) if not few or r.random() < 0.3 else None
+        return {'_priority': r.choice([None, None, -1, 0, 1]), '_delete': f(), '_allow_new': f(), '_safe': f(),
+                '_implicit_delete': f(), '_implicit_allow_new': f(), '_implicit_safe': f(),
+                '_default_safe': r.choice([True, True, False]), '_source_file': r.choice([None, 'f.yaml']), '_idx': 0}
+
+    def node(self, classes, depth, ref=None):
+        r = self.rng
+        ref = ref or self.ref()
+        cname = r.choice(classes)
+        o = {'cls': cname, 'fields': self.flags(), 'metadata': [[k, r.randint(0, 3)] for k in r.sample(['m', 'n'], r.randint(0, 2))]}
+        self.objects[str(ref)] = o
+        repo = self.eng.repo
+        if cname in repo.classes and repo.is_subclass(cname, 'FunctionNode'):
+            o['fields']['_func'] = r.choice(['builtins.dict', 'builtins.list'])
+        if cname in repo.classes and repo.is_subclass(cname, 'ComposedNode'):
+            n = r.randint(0, 2) if depth > 0 else 0
+            is_list = repo.is_subclass(cname, 'list')
+            keys = list(range(n)) if is_list else r.sample(['a', 'b', 0, 1], n)
+            kids = []
+            for k in keys:
+                cr = self.ref()
+                sub = LEAF_CLASSES if depth <= 1 else LEAF_CLASSES + ['ConfigDict', 'ConfigList', 'CallNode']
+                self.node([r.choice(sub)], depth - 1, cr)
+                kids.append([k, {'ref': cr}])
+            o['children'] = kids
+            if is_list:
+                o['list_items'] = [v for _, v in kids]
+            elif repo.is_subclass(cname, 'dict'):
+                o['dict_items'] = [list(kv) for kv in kids]
+        elif cname.startswith('ConfigScalar['):
+            o['sval'] = {'int': r.randint(0, 3), 'str': r.choice(['', 'x']), 'bool': r.choice([True, False]), 'NoneType': None, 'float': 1.5}[cname[13:-1]]
+        return ref
+
+    def make(self):
+        r = self.rng
+        args = {}
+        for p in self.c.params:
+            if p.kind == 'node':
+                cls = p.kw['cls']
+                if isinstance(cls, (list, tuple)):
+                    classes = list(cls)
+                elif p.kw.get('exact'):
+                    classes = [cls]
+                else:
+                    classes = [c for c in self.eng.classes_under(cls) if c in self.eng.node_classes and c not in ('StreamNode', 'IncludeNode', 'ConfigScalar[float]', 'PathNode', 'RecurseNode')]
+                ref = p.kw.get('ref') or self.ref()
+                self.node(classes, 2, ref)
+                args[p.name] = {'val': {'ref': ref}}
+            elif p.kind == 'val':
+                k = p.kw['vkind']
+                dom = {'bool': [True, False], 'int': [-2, -1, 0, 1, 2, 3], 'str': ['', 'a', '_x'], 'optbool': FLAG3, 'optint': [None, 0, 1],
+                       'optstr': [None, 'a'], 'prim': [None, True, 0, 'a'], 'key': ['a', 'b', 0, 1, 2, -1], 'any': [None, True, 0, 1, 'a']}[k]
+                args[p.name] = {'val': r.choice(dom)}
+            elif p.kind == 'path':
+                args[p.name] = {'path': r.choice([[], ['a'], ['a', 0], ['x', 'a']])}
+            elif p.kind == 'const':
+                args[p.name] = {'val': p.kw['value']}
+            elif p.kind == 'pset':
+                args[p.name] = {'val': None}
+            else:
+                args[p.name] = {'skip': True}
+        gen = self.c.opts.get('witness_gen')
+        w = {'contract': self.c.id, 'args': args, 'objects': self.objects, 'slots': {}}
+        if gen:
+            w = gen(self, w)
+        return w
+
+
+def search(eng, contract, clause, repo_root, n=200, seed=0, kind='post'):
+    """random search for an input on which the real function breaks `clause` ('*' = any clause).
+    returns (witness, replay_result, stats)"""
+    rng = random.Random(seed * 7919 + hash(contract.id) % 1000)
+    stats = {'tried': 0, 'valid': 0, 'invalid': 0, 'errors': 0, 'distinct': set()}
+    for _ in range(n):
+        w = WitnessGen(eng, contract, rng).make()
+        stats['tried'] += 1
+        try:
+            rr = run_witness(eng, contract, clause, w, repo_root, kind=kind)
+        except Exception as e:
+            stats['errors'] += 1
+            stats['last_error'] = f'{type(e).__name__}: {e}'
+            continue
+        if rr['verdict'] == 'invalid':
+            stats['invalid'] += 1
+            continue
+        if rr['verdict'] == 'error':
+            stats['errors'] += 1
+            stats['last_error'] = rr['detail']
+            continue
+        stats['valid'] += 1
+        stats['distinct'].add(json.dumps(w, sort_keys=True, default=str))
+        if rr['verdict'] == 'violates':
+            stats['distinct'] = len(stats['distinct'])
+            return w, rr, stats
+    stats['distinct'] = len(stats['distinct'])
+    return None, None, stats
